@@ -17,7 +17,8 @@ ASSUME = [
     "payload identity is by SHA-256 and length",
     "loopback/local UDP delivery is synchronous and lossless for single datagrams (4 MiB receive buffers)",
     "the SDK's shadowsocks.Pack/Unpack is the peer implementation (trusted)",
-    "targetIPValidator of the scenarios: loopback allowed in addition to RequirePublicIP; fd00::2 (ULA) is the forbidden destination",
+    "two families: (main) validator = loopback allowed in addition to RequirePublicIP, fd00::2 (ULA) forbidden; (def) the handler's DEFAULT validator with destinations also given as host names (localhost via /etc/hosts, *.verif.test via an in-process DNS behind net.DefaultResolver)",
+    "every other behaviour drives Handle with the conn of service.NewListenerManager().ListenPacket (production path), the others with net.ListenUDP",
     "TLC 1.8.0 and the hand transcription of udp.go into UdpNat.tla",
 ]
 
@@ -32,15 +33,19 @@ def nontrivial(b):
 def run(ctx):
     q = ctx.quick
     U.exhaustive(ctx, ["MC_UdpNatC03.cfg", "MC_UdpNatSync.cfg"] if q else ["MC_UdpNatC03T.cfg", "MC_UdpNatSync.cfg", "MC_UdpNatLong.cfg"], "C03")
-    behs = U.gen(ctx, "Gen_UdpNatReal.cfg", 110 if q else 700)
-    trace, sums = U.run_real(ctx, behs, "c03")
-    U.validate(ctx, trace, "UdpNatTraceReal.cfg", U.PROPS["C03"], "real sockets, TLC behaviours", behs)
-    U.summary_violations(ctx, sums, behs, "real sockets, TLC behaviours", {"salt"})
-    ctx.cov["evaluations"] += len(behs)
-    ctx.cov["distinct_nontrivial"] += U.count(behs, nontrivial)
-    ctx.cov["key_layouts"] = sorted({s["layout"] for s in sums})[:8]
-    ctx.sample({"behaviour": behs[0]})
-    ctx.sample({"trace_head": vlib.read_ndjson(trace)[:10]})
+    fams = U.real_families(ctx, "c03", 70 if q else 450, 45 if q else 300, U.PROPS["C03"], want={"salt"})
+    for fam, behs, trace, sums in fams:
+        ctx.cov["evaluations"] += len(behs)
+        ctx.cov["distinct_nontrivial"] += U.count(behs, nontrivial)
+        ctx.cov.setdefault("behaviours_via_listener_manager", 0)
+        ctx.cov["behaviours_via_listener_manager"] += sum(1 for x in sums if x.get("via_manager"))
+        ctx.cov.setdefault("key_layouts", [])
+        ctx.cov["key_layouts"] = sorted(set(ctx.cov["key_layouts"]) | {x["layout"] for x in sums})[:8]
+        ctx.sample({"family": fam, "behaviour": behs[0]})
+        if fam == "def":
+            rows = vlib.read_ndjson(trace)
+            ctx.cov["hostname_datagrams"] = sum(1 for r in rows if r.get("ev") == "CSend" and r["dst"] in (11, 12, 13))
+            ctx.sample({"trace_head_default_validator": rows[:10]})
     vlib.write_evidence(ctx, "model_checking",
                         "TLC explores all interleavings of the Handle loop, the association goroutines, clients, senders and "
                         "shutdown for the small constants; simulated behaviours (distinct as step sequences) are executed on the "
